@@ -55,6 +55,8 @@ def instances(tier):
     for g in (4, 5):
         for how in ("twice", "slow_connect", "after_silence", "after_shutdown"):
             out.append({"kind": "init_again", "gen": g, "how": how})
+    for g in (4, 5):
+        out.append({"kind": "counter", "gen": g})      # the process-wide packet counter stands anywhere (0..255) when init() starts
     out.append({"kind": "zero_zones", "gen": 5, "acs": 1})
     out.append({"kind": "zero_zones", "gen": 5, "acs": 2})
     out.append({"kind": "uneven", "gen": 5})
@@ -162,6 +164,30 @@ def _extra_frame(g, kind, inst, console, step):
     return None   # stale_duplicate is resolved at answer time
 
 
+def _counter(ctx, p):
+    """The packet counter is process-wide and counts every message ever sent; init() may find it at any value. The six
+    requests go out in order with consecutive packet ids modulo 256 and init() succeeds."""
+    g = Gen(p["gen"])
+    inst = Installation.simple(g.n, n_acs=2, zones_per_ac=2)
+    pid0 = ctx.int("pid0", 0, 255)
+    with ApiRig(ctx, g, inst) as rig:
+        f = g.reg.header_factory
+        f._next_packet_id = pid0
+        con = rig.console
+        rig.start()
+        rig.run(6.0)
+        reqs = [(k, fr["pid"]) for _, k, fr in con.requests if k in STEPS][:6]
+        detail = {"requests": [k for k, _ in reqs], "pids": [str(x) for _, x in reqs], "result": rig.init_result}
+        ctx.observe("requests", len(reqs))
+        ctx.check([k for k, _ in reqs] == STEPS, "order.one_at_a_time", detail=detail)
+        ctx.check(sym_and(*[x == (pid0 + i) % 256 for i, (_, x) in enumerate(reqs)]), "order.one_at_a_time", detail=dict(detail, why="packet ids"))
+        ctx.check(rig.init_result is True and rig.at.initialised, "success.returns_true", detail=detail)
+        _check_model(ctx, rig, inst, detail)
+        ctx.check(not rig.task_failures(), "no_exception", detail=[str(e.get("exception")) for e in rig.task_failures()][:3])
+    for lab in expect_labels("quick"):
+        ctx.reach(lab)
+
+
 def _init_again(ctx, p):
     """init() called a second time without shutdown(): on an initialised object (at a free instant), after a first attempt
     that timed out because the connect took longer than 5 s, or after one that failed because the console was silent at a
@@ -215,6 +241,8 @@ def _init_again(ctx, p):
 def run(ctx, p):
     g = Gen(p["gen"])
     kind = p["kind"]
+    if kind == "counter":
+        return _counter(ctx, p)
     if kind == "init_again":
         return _init_again(ctx, p)
     if kind == "zero_zones":
